@@ -5,17 +5,17 @@ import logging
 import warnings
 from typing import Protocol
 
-from drivers._data_util import faithful_counterexample, judge_dedup
-from vf import table, world
+from drivers._data_util import enumerate_cases, faithful_counterexample, judge_dedup
+from vf import world
 from vf.core import Ctx
 
 META = {
     "engine": "data",
     "text": "Redact.tla enumerates every claims tree that is a spine of containers (objects and lists) of depth 1..4 with "
             "an optional sibling leaf at every level and a key class (sensitive exact / sensitive as substring / case "
-            "variant / neutral) at every object level (35,460 trees thorough), with the oracle 'a leaf is hidden iff "
+            "variant / neutral) at every object level (2,532 trees to depth 3 quick, 35,460 to depth 4 thorough), with the oracle 'a leaf is hidden iff "
             "some key on its path is sensitive; the outermost sensitive key stays visible with a redacted value', and "
-            "checks six table-sanity invariants (incl. agreement with key-by-key redaction on flat claims).  Each tree is "
+            "checks seven table-sanity invariants (incl. agreement with key-by-key redaction on flat claims) and refutes the faithful variant (Dev_TopLevelOnly) on the model.  Each tree is "
             "concretised with real claim names from the sensitive list and a unique marker per leaf (strings and "
             "integers), emitted as a real access-log record through rpc._server._emit_access_log with the real "
             "VgiJsonFormatter / VgiAccessLogFormatter (and, sampled, end-to-end through an authenticated HTTP call), "
@@ -167,7 +167,7 @@ def run(ctx: Ctx) -> None:
     consts = {"MaxDepth": 3 if quick else 4, "Dev_TopLevelOnly": False}
     invs = ["WellFormed", "NeutralHidesNothing", "FlatIsKeyByKey", "SubtreeHidden", "HiddenIffCovered", "IntendedCoversTopLevel",
             "ModelHidesAllSensitive"]
-    cases = table.enumerate_cases(ctx, "data", "Redact", constants=consts, invariants=invs)
+    cases = enumerate_cases(ctx, "data", "Redact", constants=consts, invariants=invs)
     # faithful variant (top-level-only redaction): TLC refutes the property on the model and returns a tree; that tree
     # is one of the enumerated cases and is executed on the real code below
     cex = faithful_counterexample(ctx, "data", "Redact", constants={"MaxDepth": 2, "Dev_TopLevelOnly": True},
@@ -285,7 +285,8 @@ def run(ctx: Ctx) -> None:
     for r in picks[:: max(1, len(picks) // 5)][:5]:
         ctx.sample({"abstract_tree": r["case"]["levels"], "concrete_claims": r["_claims"], "leg": r["_leg"],
                     "formatter": r["_fmt"], "logged_line": (r["_line"] or "")[:600], "observed": r["obs"]})
-    bad = judge_dedup(ctx, "data", "Redact", [{"case": r["case"], "obs": r["obs"]} for r in records], constants=consts)
+    bad = judge_dedup(ctx, "data", "Redact", [{"case": r["case"], "obs": r["obs"]} for r in records],
+                      constants={**consts, "MaxDepth": 1}, chunk=40000)     # Conforms is independent of the case-space bound
     for idx, clauses in bad:
         r = records[idx]
         levels, o, exp = r["case"]["levels"], r["obs"], r["_exp"]
